@@ -63,7 +63,12 @@ EXC_BASES = {
 }
 
 
+CALLBACK_EXCS = ("UserError", "SkipBranch", "SelectBranch", "StopTraversal", "StopIteration")
+
+
 def exc_isa(cls: str, base: str) -> bool:
+    if base == "Callback":  # what a user callback may raise: its own error or a control exception
+        return cls in CALLBACK_EXCS
     c = cls
     while c is not None:
         if c == base:
